@@ -23,8 +23,11 @@
    Out-of-contract behaviour is explicit: [Crash Overflow] is unbounded recursion (every [fuel] is
    exhausted), [Crash Panic] an [unwrap] on [None].
 
-   [cfg] selects between the code as it is (all flags false) and the patches proposed in
-   /verif/proposed/C19-*.diff (see Props/C19.v: the refuted statements are about [cfg_code]). *)
+   [cfg] selects between two versions of the code: [cfg_patched] is the code as it is now (after
+   the fixes 36b39fb "close_file forgets the closed file id" and 257606a "resolve does not
+   re-parse the file being analysed", found by this model); [cfg_code] is the code before them,
+   kept so that the refuted statements of Props/C19.v stay expressible and a regression is
+   recognised (checks/c19.py detects which configuration the code under test follows). *)
 From Coq Require Import List Arith Bool.
 Import ListNotations.
 Open Scope bool_scope.
@@ -55,8 +58,8 @@ Arguments Ok {A} a.
 Arguments Crash {A} c.
 
 Record cfg : Type := mkCfg {
-  purge_closed : bool;   (* proposed patch: close_file forgets the closed FileId everywhere *)
-  self_guard : bool      (* proposed patch: resolve does not re-parse the file being analysed *)
+  purge_closed : bool;   (* fix 36b39fb: close_file forgets the closed FileId everywhere *)
+  self_guard : bool      (* fix 257606a: resolve does not re-parse the file being analysed *)
 }.
 Definition cfg_code : cfg := mkCfg false false.
 Definition cfg_patched : cfg := mkCfg true true.
